@@ -178,6 +178,8 @@ PAddNode(S, n, at, px, pxnone) ==
     IF at.time = NoT THEN Fail(S, "ValueError")
     ELSE IF at.tid = None THEN Fail(S, "ValueError")
     ELSE IF pxnone /\ at.pos = NoPos THEN Fail(S, "ValueError")
+    \* pixels for tracks without an array: set_pixels raises before the node is added
+    ELSE IF ~pxnone /\ ~HasSeg THEN Fail(S, "ValueError")
     ELSE
       LET S1 == IF pxnone THEN S ELSE SetPix(S, px, n)
           S2 == [S1 EXCEPT !.time[n] = at.time, !.tid[n] = at.tid, !.lid[n] = at.lid,
@@ -369,6 +371,8 @@ UAddNodeBody(S, a, ord) ==
       IN IF (upDiv \/ downDiv) /\ ~a.force THEN Fail(S, "InvalidActionError!")
          \* fix F7/F8: a node without pixels needs a position - checked before the first edit
          ELSE IF Fix("F7") /\ a.pxnone /\ a.pos = NoPos THEN Fail(S, "ValueError")
+         \* fix F22: pixels without a segmentation are refused before the first edit as well
+         ELSE IF Fix("F22") /\ ~a.pxnone /\ ~HasSeg THEN Fail(S, "ValueError")
          ELSE
            LET r0 == IF upDiv THEN
                         LET ss == SortedSeq(Succs(S, pred))
